@@ -18,7 +18,8 @@ RULE = ("exhaustive: every tree with exactly 1..3 (thorough: ..4, plus operators
         "Each tree is printed minimally and fully parenthesised (and with redundant "
         "parentheses/blank layout) by a printer that knows only the spec table, parsed, decoded "
         "and compared. Non-trivial: >= 2 operator nodes where a parent/child pair has different "
-        "precedence or an equal-precedence operator is nested on the right; distinct by term.")
+        "precedence or an equal-precedence operator is nested on the right; distinct by term."
+        " Long runs: every binary operator in left-nested, right-nested and balanced runs of 5..33 (thorough: ..129) operands, alternating two-operator runs, unary chains.")
 ASSUMPTIONS = [
     "reference printer implements OData 4.01 5.1.1.14 (in > unary > mul > add > rel > eq > and > or)",
     "the singleton-list trailing comma is the library's documented deviation from the ABNF",
